@@ -34,7 +34,7 @@ import (
 )
 
 type FmtCfg struct {
-	Indent                                string
+	Indent                              string
 	Builtin, OmitDescription, Compacted bool
 }
 
